@@ -122,6 +122,8 @@ type Path struct {
 	ghost    map[string]Value
 	lastSite string
 	initRunning *ssa.Package
+	afterFuncs  map[Ptr]*afterFunc
+	tokens      []tokenRec
 }
 
 type spawnRec struct {
@@ -390,6 +392,7 @@ type WitnessRec struct {
 
 type HarnessRun struct {
 	Name   string
+	tier   string
 	fn     *ssa.Function
 	cfg    *Config
 	prog   *Program
